@@ -186,3 +186,36 @@ fn c01_weekday() {
     kani::cover!(!want);
     std::mem::forget(r);
 }
+
+/// DateTimeCondition::match_value: any-of over the listed ranges; a request without creation time
+/// never satisfies a date/time condition.
+#[kani::proof]
+#[kani::unwind(4)]
+fn c01_datetime_condition_any_of() {
+    use redirectionio::router::request_matcher::DateTimeCondition;
+    let (s0, st0) = opt_tod();
+    let (e0, en0) = opt_tod();
+    let (s1, st1) = opt_tod();
+    let (e1, en1) = opt_tod();
+    let cond = DateTimeCondition::TimeRange(vec![RouteTime { start: st0, end: en0 }, RouteTime { start: st1, end: en1 }]);
+    let has_time: bool = kani::any();
+    let (secs, dt) = instant();
+    let mut req = crate::util::request_with(Vec::new());
+    req.created_at = if has_time { Some(dt) } else { None };
+    let tod = (secs % 86400) as u32;
+    let inr = |s: Option<u32>, e: Option<u32>| -> bool {
+        (match s {
+            None => true,
+            Some(s) => tod >= s,
+        }) && (match e {
+            None => true,
+            Some(e) => tod < e,
+        })
+    };
+    let want = has_time && (inr(s0, e0) || inr(s1, e1));
+    assert!(cond.match_value(&req) == want);
+    kani::cover!(has_time && !inr(s0, e0) && inr(s1, e1));
+    kani::cover!(!has_time);
+    std::mem::forget(req);
+    std::mem::forget(cond);
+}
